@@ -114,7 +114,8 @@ impl PropCase for Trans {
         let mut exp: Vec<(Exp, Option<usize>)> = Vec::new();
         for i in 0..k {
             if !self.noise[i].is_empty() {
-                exp.push((Exp::Discard(self.noise[i].len()), Some(start_end[i])));
+                // (where a discarded-bytes report surfaces is not prescribed: no position expectation)
+                exp.push((Exp::Discard(self.noise[i].len()), None));
             }
             exp.push((Exp::Deliver(i), Some(frame_end[i])));
         }
